@@ -360,13 +360,28 @@ def r7_4(ctx: Ctx) -> None:
     irm = ix.method("AccessControlList._init_request_manager")
     add = [c for c in calls_in(irm.node) if call_name(c) == "add_rule"]
     lam_calls = [c for n in ast.walk(irm.node) if isinstance(n, ast.Lambda) for c in ast.walk(n.body) if isinstance(c, ast.Call) and call_name(c) == "add_rule"]
+    req_param = "request"
     if len(lam_calls) != 1:
-        raise AnalysisError("R7.4: add_rule handler lambda not found")
+        # the handler may be a named method registered as `RequestType(func=self._handler)`
+        lam_calls = []
+        for reg in calls_in(irm.node):
+            if call_name(reg) == "add_request" and reg.args and isinstance(reg.args[0], ast.Constant) and reg.args[0].value == "add_rule":
+                for rt in ast.walk(reg):
+                    if isinstance(rt, ast.Call) and call_name(rt) == "RequestType":
+                        fv = kwarg(rt, "func", 0)
+                        if isinstance(fv, ast.Attribute) and isinstance(fv.value, ast.Name) and fv.value.id == "self":
+                            h = ix.find_method(ix.cls("AccessControlList"), fv.attr)
+                            if h is not None and not isinstance(h.node, ast.Lambda):
+                                lam_calls = [c for c in ast.walk(h.node) if isinstance(c, ast.Call) and call_name(c) == "add_rule"]
+                                ps = [a.arg for a in h.node.args.args if a.arg != "self"]
+                                req_param = ps[0] if ps else "request"
+    if len(lam_calls) != 1:
+        raise AnalysisError("R7.4: add_rule request handler (lambda or named method) not found")
     hc = lam_calls[0]
     idx_of: Dict[str, int] = {}
     sentinel_of: Dict[str, Optional[str]] = {}
     for kw in hc.keywords:
-        idxs = sorted({s.slice.value for s in ast.walk(kw.value) if isinstance(s, ast.Subscript) and unparse(s.value) == "request"
+        idxs = sorted({s.slice.value for s in ast.walk(kw.value) if isinstance(s, ast.Subscript) and unparse(s.value) == req_param
                        and isinstance(s.slice, ast.Constant)})
         if len(idxs) != 1:
             raise AnalysisError(f"R7.4: keyword {kw.arg} of the add_rule handler reads request indices {idxs}")
@@ -577,11 +592,23 @@ def r7_7(ctx: Ctx) -> None:
     ctx.rule("R7.7", "who may change an ACL: add_rule / remove_rule are called only by the requests, the scenario loaders and construction")
     n = 0
     acl = ix.cls("AccessControlList")
+    # a named method registered as the handler of a request (`RequestType(func=self.<name>)` inside a listed request-wiring function)
+    # is the request, like the lambdas it replaces
+    handlers: Set[str] = set()
+    for f_ in ix.all_functions():
+        if isinstance(f_.node, ast.Lambda) or f_.short not in ACL_WRITERS or not f_.name.endswith("_init_request_manager"):
+            continue
+        for rt in ast.walk(f_.node):
+            if isinstance(rt, ast.Call) and call_name(rt) == "RequestType":
+                fv = kwarg(rt, "func", 0)
+                if isinstance(fv, ast.Attribute) and isinstance(fv.value, ast.Name) and fv.value.id == "self" and f_.cls is not None:
+                    handlers.add(f"{f_.cls.short}.{fv.attr}")
     for cs in call_sites(ix, ["add_rule", "remove_rule", "_set_default_acl"]):
         if cs.fn is None or not cs.path.startswith("src/primaite/simulator/"):
             continue
         n += 1
-        ok = cs.owner in ACL_WRITERS or bool(only_called_from(ix, cs.fn, ACL_WRITERS)) or cs.in_lambda and cs.owner.endswith("_init_request_manager")
+        ok = cs.owner in ACL_WRITERS or cs.owner in handlers or bool(only_called_from(ix, cs.fn, ACL_WRITERS)) \
+            or cs.in_lambda and cs.owner.endswith("_init_request_manager")
         ctx.record("R7.7", f"{cs.path}::{cs.owner}::calls {unparse(cs.call.func)[:50]}", cs.where, ok,
                    ACL_WRITERS.get(cs.owner, "inside a function that only the listed writers call") if ok else
                    "the content of an access control list is changed outside the requests, the loaders and construction")
